@@ -223,6 +223,12 @@ def install(I):
 
     @reg('any')
     def _any(I, a, k):
+        if I.spec_mode:         # specifications never fork: a disjunction term
+            ts = [I.truth_term(x) for x in I.iterate(a[0])]
+            if any(t is True for t in ts):
+                return True
+            ts = [t for t in ts if t is not False]
+            return mk(z3.Or(*ts), 'bool') if ts else False
         for x in I.iterate(a[0]):
             if I.truth(x):
                 return True
@@ -230,6 +236,12 @@ def install(I):
 
     @reg('all')
     def _all(I, a, k):
+        if I.spec_mode:
+            ts = [I.truth_term(x) for x in I.iterate(a[0])]
+            if any(t is False for t in ts):
+                return False
+            ts = [t for t in ts if t is not True]
+            return mk(z3.And(*ts), 'bool') if ts else True
         for x in I.iterate(a[0]):
             if not I.truth(x):
                 return False
@@ -764,7 +776,10 @@ def builtin_attr(I, obj, name):
                 raise M.Unsupported('str.%s with symbolic argument' % name)
             return meth(nat)
         return _MISSING
-    from .values import SymNameOf
+    from .values import SymNameOf, Struct
+    if isinstance(obj, Struct) and obj.tag.startswith('str.') and hasattr(str, name) and not name.startswith('__'):
+        # a string built by an uninterpreted str function: its methods are uninterpreted functions of it too
+        return meth(lambda *a, **k: Struct('str.' + name, (obj, tuple(a), tuple(sorted(k.items(), key=lambda kv: kv[0])))))
     if isinstance(obj, SymNameOf) and name == 'lower':
         fn = z3.Function('str_lower', z3.StringSort(), z3.StringSort())
         return meth(lambda: SymNameOf(fn(obj.t), obj.src, True))
